@@ -9,6 +9,10 @@
 //	        must reproduce the answers a separately constructed cipher gave sequentially)
 //	    -> panic <iv|blocks|key|other:...>
 //	dec <opts> <key> <ct>   -> pt <hex> | panic ...
+//	big <opts> <key> <prelen> <ptlen> <ptseed> <spare> <tail>
+//	    LARGE inputs (>= 64 KiB size class) without megabytes of hex: pre = prelen bytes 0xA5,
+//	    pt[i] = byte(i*167 + seed*13 + (i>>8)*31); same layout, calls and checks as `enc`
+//	    -> ct <len> <fnv1a-64 hex> in <same|changed> arr <same|changed@idx:hex..> rt <ok|len hash> darr <same|changed@..> conc <ok|diff>
 //
 //	<opts> = "-" | comma separated  cbc | cfb | iv:<hex>      (hex "-" = empty everywhere else)
 package main
@@ -156,6 +160,42 @@ func concurrent(optS string, key, pt []byte, shared aesx.ICipher) string {
 	return "ok"
 }
 
+func genPt(n, seed int) []byte {
+	pt := make([]byte, n)
+	for i := range pt {
+		pt[i] = byte(i*167 + seed*13 + (i>>8)*31)
+	}
+	return pt
+}
+
+func fnv64(b []byte) string {
+	h := uint64(0xcbf29ce484222325)
+	for _, x := range b {
+		h = (h ^ uint64(x)) * 0x100000001b3
+	}
+	return fmt.Sprintf("%016x", h)
+}
+
+func changedOr(before, after []byte) string {
+	n := len(before)
+	if len(after) < n {
+		n = len(after)
+	}
+	for i := 0; i < n; i++ {
+		if before[i] != after[i] {
+			e := i + 32
+			if e > len(after) {
+				e = len(after)
+			}
+			return fmt.Sprintf("changed@%d:%s", i, hexs(after[i:e]))
+		}
+	}
+	if len(before) != len(after) {
+		return fmt.Sprintf("changed@%d:-", n)
+	}
+	return "same"
+}
+
 func exec(c *hx.Ctx, line string) (out string) {
 	defer func() {
 		if r := recover(); r != nil {
@@ -183,6 +223,34 @@ func exec(c *hx.Ctx, line string) (out string) {
 		darrS := sameOr(dbefore, darr[:cap(darr)])
 		conc := concurrent(w[1], key, pt, ci)
 		return fmt.Sprintf("ct %s in %s arr %s rt %s darr %s conc %s", hexs(ctCopy), inS, arrS, rtS, darrS, conc)
+	case w[0] == "big" && len(w) == 8:
+		key, spare, tail := unhex(w[2]), unhex(w[6]), unhex(w[7])
+		var prelen, ptlen, seed int
+		fmt.Sscan(w[3], &prelen)
+		fmt.Sscan(w[4], &ptlen)
+		fmt.Sscan(w[5], &seed)
+		pre := bytes.Repeat([]byte{0xA5}, prelen)
+		pt := genPt(ptlen, seed)
+		ci := aesx.NewCipher(key, parseOpts(w[1])...)
+		arr, in := layout(pre, pt, spare, tail)
+		before := append([]byte{}, arr...)
+		ct := ci.Encrypt(in)
+		inS := "same"
+		if !bytes.Equal(in, pt) || len(in) != len(pt) {
+			inS = "changed"
+		}
+		arrS := changedOr(before, arr[:cap(arr)])
+		ctCopy := append([]byte{}, ct...)
+		darr, din := layout(pre, ct, spare, tail)
+		dbefore := append([]byte{}, darr...)
+		rt := ci.Decrypt(din)
+		rtS := "ok"
+		if !bytes.Equal(rt, pt) {
+			rtS = fmt.Sprintf("%d %s", len(rt), fnv64(rt))
+		}
+		darrS := changedOr(dbefore, darr[:cap(darr)])
+		conc := concurrent(w[1], key, pt, ci)
+		return fmt.Sprintf("ct %d %s in %s arr %s rt %s darr %s conc %s", len(ctCopy), fnv64(ctCopy), inS, arrS, rtS, darrS, conc)
 	case w[0] == "dec" && len(w) == 4:
 		key, ct := unhex(w[2]), unhex(w[3])
 		ci := aesx.NewCipher(key, parseOpts(w[1])...)
@@ -377,6 +445,54 @@ func gen(c *hx.Ctx) {
 		}
 		emitEnc(c, opts, r.Bytes(ks), r.Bytes(r.Intn(8)), pt, spareFor(c, r.Intn(5), n), r.Bytes(r.Intn(8)))
 		c.Count("enc_random_long")
+	}
+	// 5. LARGE inputs (size classes around and above 64 KiB, where a bulk / zero-copy path would start), each a prefix of a
+	//    larger backing array with spare capacity {0, 1, pad-1, pad, 16, 64} filled with a sentinel
+	bigLens := []int{65535, 65536, 65537, 65536 + 15, 65536 + 16, 100000}
+	if c.Thorough() {
+		bigLens = append(bigLens, 65536+31, 131072, 131073, 200000, 65536+r.Range(1, 200000), 65536+16*r.Range(1, 4000))
+	}
+	emitBig := func(mode string, n, kind int) {
+		pad := 16 - n%16
+		k := []int{0, 1, pad - 1, pad, 16, 64}[kind]
+		spare := bytes.Repeat([]byte{0xEE}, k)
+		if r.Intn(4) == 0 {
+			spare = r.Bytes(k)
+		}
+		opts := mode
+		if r.Bool() {
+			iv := "iv:" + hex.EncodeToString(r.Bytes(16))
+			if opts == "-" {
+				opts = iv
+			} else {
+				opts += "," + iv
+			}
+		}
+		var tail []byte
+		if r.Bool() {
+			tail = r.Bytes(r.Range(1, 8))
+		}
+		c.Emit("big %s %s %d %d %d %s %s", opts, hexs(r.Bytes(keySizes[r.Intn(3)])), []int{0, 0, 5, 33}[r.Intn(4)], n, r.Intn(1000), hexs(spare), hexs(tail))
+		c.Count("big_" + mode)
+		c.Count([]string{"big_spare0", "big_spare1", "big_spare=pad-1", "big_spare=pad", "big_spare16", "big_spare64"}[kind])
+	}
+	for i, n := range bigLens {
+		for kind := 0; kind < 6; kind++ {
+			emitBig([]string{"-", "cbc"}[(i+kind)%2], n, kind)
+			if c.Thorough() || kind == 0 || kind == 4 {
+				emitBig("cfb", n, kind)
+			}
+		}
+	}
+	if c.Thorough() {
+		for kind := 0; kind < 6; kind++ {
+			emitBig("cbc", 1<<20, kind)
+			emitBig("cfb", 1<<20, kind)
+		}
+		emitBig("-", 1<<20+1, 3)
+		emitBig("cbc", 3<<20, 5)
+	} else {
+		emitBig("cbc", 1<<20, 3)
 	}
 	// 4. Decrypt of arbitrary / crafted ciphertexts (model fidelity of pkcs5Trimming off the round-trip path)
 	for i := 0; i < c.Budget(3000, 40000); i++ {
